@@ -45,6 +45,26 @@ var (
 
 type session struct{ c2s, s2c []byte }
 
+var (
+	keTargetMu   sync.Mutex
+	keTargetAddr *net.UDPAddr // the NTP server the key exchange names; nil: the relay in front of the real listener
+)
+
+func keTarget() *net.UDPAddr {
+	keTargetMu.Lock()
+	defer keTargetMu.Unlock()
+	if keTargetAddr != nil {
+		return keTargetAddr
+	}
+	return relay.addr
+}
+
+func setKETarget(a *net.UDPAddr) {
+	keTargetMu.Lock()
+	keTargetAddr = a
+	keTargetMu.Unlock()
+}
+
 func TestMain(m *testing.M) {
 	log := slog.New(slog.NewTextHandler(io.Discard, nil))
 	timebase.RegisterClock(clocks.NewSystemClock(log, clocks.UnknownDrift))
@@ -77,8 +97,8 @@ func TestMain(m *testing.M) {
 		recs := []netlab.Rec{
 			{Type: netlab.RecNextProto, Critical: true, Body: netlab.U16(0)},
 			{Type: netlab.RecAEAD, Critical: true, Body: netlab.U16(15)},
-			{Type: netlab.RecServer, Body: []byte(relay.addr.IP.String())},
-			{Type: netlab.RecPort, Body: netlab.U16(uint16(relay.addr.Port))},
+			{Type: netlab.RecServer, Body: []byte(keTarget().IP.String())},
+			{Type: netlab.RecPort, Body: netlab.U16(uint16(keTarget().Port))},
 		}
 		sc := ntske.ServerCookie{Algo: ntske.AES_SIV_CMAC_256, S2C: s2c, C2S: c2s}
 		for i := 0; i < 8; i++ {
